@@ -190,6 +190,23 @@ def instrumented():
         yield
 
 
+def open_descriptors(directories):
+    """open file descriptors of this process that point into one of the directories (also to files already unlinked)"""
+    out = []
+    try:
+        fds = os.listdir("/proc/self/fd")
+    except OSError:
+        return out
+    for fd in fds:
+        try:
+            tgt = os.readlink("/proc/self/fd/" + fd)
+        except OSError:
+            continue
+        if any(tgt.startswith(os.path.abspath(d) + os.sep) for d in directories):
+            out.append(tgt)
+    return out
+
+
 def all_files(directory):
     return [os.path.join(r, fn) for r, _, files in os.walk(directory) for fn in files]
 
